@@ -3,6 +3,7 @@ package checks
 import (
 	"context"
 	"fmt"
+	"strings"
 	"sync"
 	"time"
 
@@ -65,22 +66,26 @@ func bucketClockScenario(c *sup.Ctx, r *rng.R) {
 	type evrec struct {
 		key string
 		cas uint64
+		rev uint64
+		del bool
 	}
 	var evmu sync.Mutex
-	events := map[int][]evrec{}
+	events := map[string][]evrec{} // "bucket/collection" -> events in delivery order
 	var terms []chan bool
 	var dones []chan struct{}
 	for bi, b := range buckets {
-		bi := bi
-		term, done := make(chan bool), make(chan struct{})
-		terms, dones = append(terms, term), append(dones, done)
-		_ = b.Colls[0].StartDCPFeed(context.Background(), sgbucket.FeedArguments{ID: "c04", Backfill: sgbucket.FeedNoBackfill, Terminator: term, DoneChan: done},
-			func(e sgbucket.FeedEvent) bool {
-				evmu.Lock()
-				events[bi] = append(events[bi], evrec{string(e.Key), e.Cas})
-				evmu.Unlock()
-				return true
-			}, nil)
+		for ci, col := range b.Colls {
+			fk := fmt.Sprintf("%d/%d", bi, ci)
+			term, done := make(chan bool), make(chan struct{})
+			terms, dones = append(terms, term), append(dones, done)
+			_ = col.StartDCPFeed(context.Background(), sgbucket.FeedArguments{ID: "c04", Backfill: sgbucket.FeedNoBackfill, Terminator: term, DoneChan: done},
+				func(e sgbucket.FeedEvent) bool {
+					evmu.Lock()
+					events[fk] = append(events[fk], evrec{string(e.Key), e.Cas, e.RevNo, e.Opcode == sgbucket.FeedOpDeletion})
+					evmu.Unlock()
+					return true
+				}, nil)
+		}
 	}
 	writers := 3 + r.Intn(6)
 	var mu sync.Mutex
@@ -97,9 +102,10 @@ func bucketClockScenario(c *sup.Ctx, r *rng.R) {
 			for i := 0; i < 40; i++ {
 				bi := wr.Intn(nb)
 				b := buckets[bi]
-				col := b.Colls[wr.Intn(len(b.Colls))]
+				ci := wr.Intn(len(b.Colls))
+				col := b.Colls[ci]
 				key := fmt.Sprintf("k%d", wr.Intn(3))
-				lk := fmt.Sprintf("%d/%s", bi, key)
+				lk := fmt.Sprintf("%d/%d/%s", bi, ci, key)
 				body := []byte(fmt.Sprintf(`{"w":"%d.%d"}`, wi, i))
 				var cas uint64
 				var err error
@@ -149,9 +155,36 @@ func bucketClockScenario(c *sup.Ctx, r *rng.R) {
 		}(wi, wr)
 	}
 	wg.Wait()
+	// a sentinel write per collection flushes the feeds: everything applied before it has been delivered once it arrives
+	for _, b := range buckets {
+		for _, col := range b.Colls {
+			_ = col.Set("foreign-sentinel", 0, nil, []byte(`{"end":1}`))
+		}
+	}
+	flushed := false
+	for t := 0; t < 2000 && !flushed; t++ {
+		flushed = true
+		evmu.Lock()
+		for bi, b := range buckets {
+			for ci := range b.Colls {
+				evs := events[fmt.Sprintf("%d/%d", bi, ci)]
+				if len(evs) == 0 || evs[len(evs)-1].key != "foreign-sentinel" {
+					flushed = false
+				}
+			}
+		}
+		evmu.Unlock()
+		if !flushed {
+			time.Sleep(5 * time.Millisecond)
+		}
+	}
 	for i := range terms {
 		close(terms[i])
 		<-dones[i]
+	}
+	if !flushed {
+		c.Incon("the feeds did not deliver the sentinel within 10 s")
+		return
 	}
 	c.Count("bucket_clock_runs", 1)
 	c.Count("cas_stamps_checked", int64(len(stamps)))
@@ -160,19 +193,55 @@ func bucketClockScenario(c *sup.Ctx, r *rng.R) {
 		kind, text := splitKind(msg)
 		c.Viol([]string{"C04"}, "bucket|"+kind+"|"+script.Class, text+fmt.Sprintf(" (across %d buckets, %d writers)", nb, writers), d)
 	}
-	// per feed: the events of one bucket never repeat a CAS, and every stamped CAS appears on its bucket's feed
+	// per feed: the events of one collection never repeat a CAS; along the delivery order (= the order in which the
+	// writes were applied) and along the revision numbers, the CAS of one key only grows; the CAS a key ends with
+	// is the largest any writer was handed for it
 	evmu.Lock()
-	for bi, evs := range events {
+	lastEv := map[string]evrec{}
+	for fk, evs := range events {
 		seen := map[uint64]string{}
 		for _, e := range evs {
+			if strings.HasPrefix(e.key, "foreign") {
+				continue // stored with a caller-chosen CAS
+			}
 			if k, dup := seen[e.cas]; dup && (k != e.key) {
-				c.Viol([]string{"C04"}, "bucket|event-cas-duplicate|"+script.Class, fmt.Sprintf("bucket %d: events for %s and %s carry the same CAS %d", bi, k, e.key, e.cas), nil)
+				c.Viol([]string{"C04"}, "bucket|event-cas-duplicate|"+script.Class, fmt.Sprintf("collection %s: events for %s and %s carry the same CAS %d", fk, k, e.key, e.cas), nil)
 				break
 			}
 			seen[e.cas] = e.key
+			lk := fk + "/" + e.key
+			if p, ok := lastEv[lk]; ok && e.cas <= p.cas {
+				c.Viol([]string{"C04"}, "bucket|later-write-smaller-cas|"+script.Class,
+					fmt.Sprintf("key %s: the write applied later (revision %d) carries CAS %d, not larger than the CAS %d of the write applied before it (revision %d)", lk, e.rev, e.cas, p.cas, p.rev),
+					map[string]any{"writers": writers, "buckets": nb})
+				break
+			}
+			lastEv[lk] = e
+			c.Count("per_key_order_pairs_checked", 1)
 		}
 	}
 	evmu.Unlock()
+	for lk, sts := range perKey {
+		var bi, ci int
+		var key string
+		if _, err := fmt.Sscanf(strings.ReplaceAll(lk, "/", " "), "%d %d %s", &bi, &ci, &key); err != nil {
+			continue
+		}
+		mx := uint64(0)
+		for _, st := range sts {
+			if st.Cas > mx {
+				mx = st.Cas
+			}
+		}
+		if e, ok := lastEv[lk]; ok && e.cas < mx {
+			c.Viol([]string{"C04"}, "bucket|final-cas-below-handed-out|"+script.Class,
+				fmt.Sprintf("key %s ends with CAS %d (its last applied write), but an earlier-applied write of it was handed the larger CAS %d", lk, e.cas, mx), nil)
+		}
+		if _, cas, err := buckets[bi].Colls[ci].GetRaw(key); err == nil && cas < mx {
+			c.Viol([]string{"C04"}, "bucket|stored-cas-below-handed-out|"+script.Class,
+				fmt.Sprintf("key %s is stored with CAS %d, but a write of it was handed the larger CAS %d", lk, cas, mx), nil)
+		}
+	}
 	c.Sample(map[string]any{"clock": script.Class, "buckets": nb, "writers": writers, "stamps": len(stamps)})
 	_ = kv.ErrClass
 	_ = time.Now
